@@ -52,29 +52,58 @@ theorem C04_parseInt64_toString (n : Int) (h1 : int64Min ≤ n) (h2 : n ≤ int6
     parseInt64 (toString n) = some n := parseInt64_toString n h1 h2
 
 /-- out of the int64 range json.Number.Int64 fails and the number is a float -/
-theorem C04_int_out_of_range (n : Int) (fr : String) (h : n < int64Min ∨ int64Max < n) :
+theorem C04_int_out_of_range (n : Int) (fr : String) (h : n < int64Min ∨ int64Max < n)
+    (hfr : fr.isEmpty = false) :
     normalize (.jnum (toString n) fr) = .ok (.flt fr) := by
   have : parseInt64 (toString n) = none := by
     unfold parseInt64
-    rw [int_toString_toInt]
-    have : ¬ (int64Min ≤ n ∧ n ≤ int64Max ∧ (!(toString n).startsWith "+") = true) := by
-      intro ⟨a, b, _⟩; omega
+    rw [goDecInt_toString]
+    have : ¬ (int64Min ≤ n ∧ n ≤ int64Max) := by
+      intro ⟨a, b⟩; omega
     simp only [this, if_false]
   rw [normalize_jnum, this]
+  simp [hfr]
 
 example : (9223372036854775808 : Int) < int64Min ∨ int64Max < (9223372036854775808 : Int) := by
   decide
 
+/-- Go's `strconv.ParseInt(_, 10, _)` grammar as modelled: `1_000` (accepted by Lean's own
+    `String.toInt?`) and a text with any non-digit are not integers, `+7` is. -/
+theorem C04_goDecInt_grammar :
+    goDecInt "1_000" = none ∧ goDecInt "+7" = some 7 ∧ goDecInt "+" = none ∧ goDecInt "+-7" = none ∧
+    (∀ n : Int, goDecInt (toString n) = some n) := by
+  refine ⟨?_, ?_, ?_, ?_, goDecInt_toString⟩
+  · unfold goDecInt
+    have h : "1_000".toList = ['1', '_', '0', '0', '0'] := by decide
+    rw [h]; decide
+  · unfold goDecInt
+    have h : "+7".toList = ['+', '7'] := by decide
+    rw [h]
+    have h2 : String.ofList ['7'] = toString (7 : Int) := by decide
+    simp only [List.isEmpty_cons, List.all_cons, List.all_nil, Bool.false_or]
+    rw [h2, int_toString_toInt]
+    decide
+  · unfold goDecInt
+    have h : "+".toList = ['+'] := by decide
+    rw [h]; decide
+  · unfold goDecInt
+    have h : "+-7".toList = ['+', '-', '7'] := by decide
+    rw [h]; decide
+
 /-! ## `normalize` is total except for `map[any]any` -/
 
-/-- `normalize r` fails iff `r` contains a `map[any]any`, and then with `invalidType` -/
+/-- `normalize r` fails iff `r` contains a `map[any]any` or a JSON number that is neither an int64 nor
+    convertible to float64 (`hasMapAny`), and then with `invalidType` resp. the conversion error -/
 theorem C04_normalize_total (r : Raw) :
     ((∃ e, normalize r = .error e) ↔ hasMapAny r = true) ∧
-    (∀ e, normalize r = .error e → e = .invalidType) ∧
+    (∀ e, normalize r = .error e → e = .invalidType ∨ e = .other) ∧
     (hasMapAny r = false → ∃ v, normalize r = .ok v) := by
   rcases normalize_outcome r with ⟨hb, hr⟩ | ⟨hb, v, hr⟩
-  · refine ⟨⟨fun _ => hb, fun _ => ⟨_, hr⟩⟩, ?_, ?_⟩
-    · intro e he; rw [hr] at he; cases he; rfl
+  · refine ⟨⟨fun _ => hb, fun _ => by rcases hr with hr | hr <;> exact ⟨_, hr⟩⟩, ?_, ?_⟩
+    · intro e he
+      rcases hr with hr | hr <;> (rw [hr] at he; cases he)
+      · exact Or.inl rfl
+      · exact Or.inr rfl
     · intro h; rw [hb] at h; cases h
   · refine ⟨⟨?_, ?_⟩, ?_, fun _ => ⟨v, hr⟩⟩
     · rintro ⟨e, he⟩; rw [hr] at he; cases he
@@ -85,29 +114,38 @@ example : hasMapAny (.map [("a", .list [.goInt 1, .mapAny])]) = true := by decid
 example : normalize (.map [("a", .list [.goInt 1, .mapAny])]) = .error .invalidType := by
   simp [normalize, normalizeFields, normalizeList, bind, Except.bind, throw, throwThe,
     MonadExceptOf.throw, pure, Except.pure]
-example : hasMapAny (.map [("a", .list [.goInt 1, .jnum "2" "2"])]) = false := by decide
+example : hasMapAny (.map [("a", .list [.goInt 1, .goFloat "2"])]) = false := by decide
 
 /-! ## floats -/
 
 /-- JSON non-integers, YAML `!!float` and TOML floats all become `.flt` of the `%v` text -/
-theorem C04_float_path (text value fr : String) :
+theorem C04_float_path (text value fr : String) (hfr : fr.isEmpty = false) :
     (parseInt64 text = none → normalize (.jnum text fr) = .ok (.flt fr)) ∧
     (yamlScalar "!!float" value fr >>= normalize) = .ok (.flt fr) ∧
     normalize (.goFloat fr) = .ok (.flt fr) := by
   refine ⟨?_, ?_, by rw [normalize]; rfl⟩
-  · intro h; rw [normalize_jnum, h]
-  · rw [yamlScalar_float, s_bind_ok, normalize]; rfl
+  · intro h; rw [normalize_jnum, h]; simp [hfr]
+  · rw [yamlScalar_float]; simp only [hfr, Bool.false_eq_true, if_false]; rw [s_bind_ok, normalize]; rfl
+
+/-- a literal no float64 can hold (`fr = ""`: `strconv.ParseFloat` / `json.Number.Float64` failed, e.g.
+    `1e400`) is an error in every format, never a silently different number -/
+theorem C04_float_unrepresentable_is_error (text value : String) (h : parseInt64 text = none) :
+    normalize (.jnum text "") = .error .other ∧
+    (yamlScalar "!!float" value "" >>= normalize) = .error .other := by
+  refine ⟨?_, ?_⟩
+  · rw [normalize_jnum, h]; rfl
+  · rw [yamlScalar_float]; rfl
 
 /-- non-vacuity: `1.5` is not an integer text, so JSON `1.5` is the float `1.5` -/
 example : parseInt64 "1.5" = none :=
-  parseInt64_none_of_bad_char "1.5" '.' (by decide) (by decide) (by decide) (by decide)
+  parseInt64_none_of_bad_char "1.5" '.' (by decide) (by decide) (by decide) (by decide) (by decide)
 example : normalize (.jnum "1.5" "1.5") = .ok (.flt "1.5") :=
-  (C04_float_path "1.5" "" "1.5").1
-    (parseInt64_none_of_bad_char "1.5" '.' (by decide) (by decide) (by decide) (by decide))
+  (C04_float_path "1.5" "" "1.5" (by decide)).1
+    (parseInt64_none_of_bad_char "1.5" '.' (by decide) (by decide) (by decide) (by decide) (by decide))
 /-- … and JSON `1e3` too (json.Number.Int64 fails on it), with `%v` text `1000` -/
 example : normalize (.jnum "1e3" "1000") = .ok (.flt "1000") :=
-  (C04_float_path "1e3" "" "1000").1
-    (parseInt64_none_of_bad_char "1e3" 'e' (by decide) (by decide) (by decide) (by decide))
+  (C04_float_path "1e3" "" "1000" (by decide)).1
+    (parseInt64_none_of_bad_char "1e3" 'e' (by decide) (by decide) (by decide) (by decide) (by decide))
 
 /-! ## comparison is structural after normalisation -/
 
@@ -144,10 +182,12 @@ example : int64Min ≤ (42 : Int) ∧ (42 : Int) ≤ int64Max := by decide
 /-! ## maps -/
 
 /-- Go maps are unordered and decoders list entries in different orders: for entry lists with
-    distinct keys that are permutations of each other the normalised map is the same (also the
-    same failure, if any) -/
+    distinct keys that are permutations of each other normalisation fails for both or yields the
+    same map for both (which of the two possible errors is met first may depend on the order) -/
 theorem C04_map_order_irrelevant (kvs' kvs : List (String × Raw)) (hp : kvs'.Perm kvs)
-    (hn : (kvs.map (·.1)).Nodup) : normalize (.map kvs') = normalize (.map kvs) :=
+    (hn : (kvs.map (·.1)).Nodup) :
+    (∃ e' e, normalize (.map kvs') = .error e' ∧ normalize (.map kvs) = .error e) ∨
+    (∃ v, normalize (.map kvs') = .ok v ∧ normalize (.map kvs) = .ok v) :=
   normalize_map_perm hp hn
 
 example : [("b", Raw.goInt 2), ("a", Raw.str "x")].Perm [("a", .str "x"), ("b", .goInt 2)] ∧
